@@ -245,7 +245,9 @@ func (g *genCtx) rangeHdr() string {
 }
 
 var mediaPool = []string{"text/html", "application/json", "text/plain", "application/xml", "*/*", "text/*", "image/png",
-	"application/vnd.api+json", "application/*", "text/html;level=1", "*", "application/problem+json", "a/b"}
+	"application/vnd.api+json", "application/*", "text/html;level=1", "*", "application/problem+json", "a/b",
+	// ranges without a subtype, with an empty one, and look-alikes of the offers' types
+	"text", "application", "image", "text/", "/html", "texthtml", "textual/plain", "tex/html", "text/htm"}
 
 func (g *genCtx) acceptHdr(pool []string) string {
 	r := g.r
